@@ -33,6 +33,12 @@ fn schedule(seed: u8, len: usize, n: usize) -> Vec<usize> {
 /// consumed everything and never reads into an empty slice) and C07 (observation under the decoded
 /// schedule and Pending script equals the single-byte schedule).
 pub fn stream_case(data: &[u8]) -> Result<(bool, bool), String> {
+    stream_case_for(data, true, true)
+}
+
+/// `c05` / `c07` select which oracles are active (a campaign for one property must not stop at a
+/// violation of the other).
+pub fn stream_case_for(data: &[u8], c05: bool, c07: bool) -> Result<(bool, bool), String> {
     if data.len() < 4 {
         return Ok((false, false));
     }
@@ -42,20 +48,20 @@ pub fn stream_case(data: &[u8]) -> Result<(bool, bool), String> {
     let reads = schedule(data[2], stream.len(), n);
     let pauses: Vec<u8> = (0..(data[3] % 4)).map(|i| (data[3] >> (2 + i)) & 3).collect();
     let out = with_cap!(cap, run_cap, stream);
-    if !out.suffix_ok {
+    if c05 && !out.suffix_ok {
         return Err(format!("C05: run('{}') returned a slice that is not a suffix of its input", esc(stream)));
     }
     let po = with_n!(n, proc_n, &pauses, stream, &reads);
-    if po.empty_dst_reads > 0 {
+    if c05 && po.empty_dst_reads > 0 {
         return Err(format!("C05: process::<{}>('{}') read into an empty buffer", n, esc(stream)));
     }
-    if po.result != Err(EOF_TOKEN) || po.consumed != stream.len() {
+    if c05 && (po.result != Err(EOF_TOKEN) || po.consumed != stream.len()) {
         return Err(format!("C05: process::<{}>('{}') ended with {:?} after {} bytes", n, esc(stream), po.result, po.consumed));
     }
     let base = with_n!(n, proc_n, &[], stream, &vec![1; stream.len()]);
     let a = vrun::observation(&po.log, &[]);
     let b = vrun::observation(&base.log, &[]);
-    if a != b {
+    if c07 && a != b {
         return Err(format!(
             "C07: process::<{}>('{}') differs between schedule {:?} and single-byte reads: [{}] '{}' vs [{}] '{}'",
             n,
@@ -144,4 +150,35 @@ pub fn parse_case(nodes: &[&'static Node], data: &[u8]) -> Result<bool, String> 
             Ok(false)
         }
     }
+}
+
+/// Seed inputs of the campaigns (also executed by every run of the checks).
+pub const STREAM_SEEDS: &[&[u8]] = &[
+    b"\x07\x20\x02\x01A 1\n*E?\nH:E 'a\nb'\n",
+    b"\x10\x05\x00\x00H:A 1.5e1;A?\nAE?\n",
+    b"\x03\x00\x01\x02E:E? 9\n",
+    b"\x0f\x08\x03\x00A:H 1,2,3,4,5,6,7,8,9,10\n",
+    b"\x40\x40\x04\x07SYST:ERR?;COUN?\n*IDN?\n",
+    b"\x08\x10\x02\x00H:H #13a\nb;A 1\n",
+];
+
+pub const PARSE_SEEDS: &[&[u8]] = &[b"\x00\x04A 1\nA?\n", b"\x01\x09A 1;E '\n';\n", b"\x00\x07H:H #12ab\n", b"\x02\x03A? \nx"];
+
+/// Adds the statistics of a libFuzzer campaign run by ./check (thorough tier) as an evidence part.
+pub fn campaign_part(h: &mut vcore::runner::Harness, prop: &str, name: &str) {
+    let path = format!("/verif/target/fuzz_stats_{}.json", prop);
+    let Ok(text) = std::fs::read_to_string(path) else { return };
+    let Ok(v) = serde_json::from_str::<serde_json::Value>(&text) else { return };
+    let mut st = vcore::runner::Stats::default();
+    st.evals = v["executed"].as_u64().unwrap_or(0);
+    st.class_n("libFuzzer executions", st.evals);
+    // non-trivial cases are not counted inside the fuzzer process: reported as 0 (conservative)
+    let v2 = v.clone();
+    st.sample(|| v2);
+    h.external_part(
+        name,
+        "coverage-guided libFuzzer campaign (cargo fuzz, no sanitizer: the library has no unsafe code; overflow checks and debug assertions on), the semantic oracle of this property inside the target, 12 independent jobs bounded by -runs, seeded with the inputs of fuzzing.rs, -len_control=0; distinct non-trivial cases are not counted inside the fuzzer (0 reported)",
+        false,
+        st,
+    );
 }
